@@ -4,7 +4,7 @@ From Ropt Require Import Base.Num Base.ListX Model.Ensemble Proofs.Ensemble.
 Import ListNotations.
 Open Scope Q_scope.
 
-Theorem C01_weighted_objective : forall ow objs, weighted_objective ow objs = dot ow objs.
+Theorem C01_weighted_objective : forall ow objs, weighted_objective ow objs = rdot ow objs.
 Proof. exact weighted_objective_dot. Qed.
 
 Print Assumptions C01_weighted_objective.
